@@ -818,10 +818,20 @@ func (fx *Fx) evalComposite(st *State, x *ast.CompositeLit, spec bool) Val {
 		}
 		return Val{T: t, S: ss, X: app("mk_"+ss, arr, fmt.Sprint(len(x.Elts)), fmt.Sprint(len(x.Elts)), fx.alloc(st, "backing"))}
 	case *types.Map:
-		if len(x.Elts) != 0 {
-			panic(unsupported("non-empty map literal"))
+		mv := fx.newMap(st, t, u)
+		for _, el := range x.Elts {
+			kv, ok := el.(*ast.KeyValueExpr)
+			if !ok {
+				panic(unsupported("map literal element without a key"))
+			}
+			k, v := fx.eval(st, kv.Key, spec), fx.eval(st, kv.Value, spec)
+			// the map is fresh and not yet visible to anyone: a plain update of its cell, no lock or nil obligations
+			c, cell := fx.mapCell(st, mv, u)
+			dom, val, size := app("dom_"+cell, c), app("val_"+cell, c), app("size_"+cell, c)
+			nsize := ite(app("select", dom, k.X), size, app("+", size, "1"))
+			fx.mapStoreCell(st, mv, cell, app("mk_"+cell, app("store", dom, k.X, "true"), app("store", val, k.X, v.X), nsize))
 		}
-		return fx.newMap(st, t, u)
+		return mv
 	}
 	panic(unsupported(fmt.Sprintf("composite literal of %s", t)))
 }
